@@ -74,8 +74,12 @@ def herm_fam(rng, n):
         return dict(fam="lap")
     if r < 0.92:
         return dict(fam="graded", span=rng.choice([10, 20, 40]))
-    if r < 0.96:
+    if r < 0.94:
         return dict(fam="presc", spec="geo", span=rng.choice([10, 30]))
+    if r < 0.97:
+        return dict(fam="bipart", blk=max(2, n // 2 - rng.randint(0, 2)))
+    if r < 0.99:
+        return dict(fam="grid", w=rng.choice([3, 4, 5]))
     return dict(fam="diag", spec="lin")
 
 
@@ -86,6 +90,8 @@ def herm_basic(rng, count, types=("d",), classes=("sym", "symsh", "herm"), nmax=
         ty = rng.choice(types)
         n = rng.randint(6, nmax)
         f = herm_fam(rng, n)
+        if cls in ("herm", "symsh") and f["fam"] in ("bipart", "grid"):
+            cls = "sym"
         if cls == "herm" and f["fam"] not in ("rand", "presc", "blockdiag"):
             f = dict(fam="rand")
         nev, ncv = pick_dims(rng, n, extreme=rng.random() < 0.2)
@@ -98,6 +104,9 @@ def herm_basic(rng, count, types=("d",), classes=("sym", "symsh", "herm"), nmax=
         hist = rng.choice(histories or ["N,I,C0", "N,I,C0", "N,V1,C0", "N,I,C0,V1,C1,I,C0", "N,I,C0,C1", "N,V2,C1,N,I,C0,I,C0"])
         sv1 = rng.choice(["rnd", "rnd2"])
         sv2 = rng.choice(["rnd", "blk" if f["fam"] == "blockdiag" else "rnd2"])
+        if f["fam"] in ("bipart", "grid"):
+            sv1 = "blk" if f["fam"] == "bipart" else "e1"
+            hist = rng.choice(["N,V1,C0", "N,V1,C0,I,C0"])
         kw = dict(cls=cls, ty=ty, n=n, nev=nev, ncv=ncv, seed=rng.randint(1, 10 ** 6), hist=hist, args0=a0, args1=a1, sv1=sv1, sv2=sv2, meas=meas)
         kw.update(f)
         if cls == "symsh":
@@ -149,5 +158,53 @@ def gen_basic(rng, count, types=("d",), classes=("gen", "genrs", "gencs"), nmax=
         if cls == "gencs":
             kw["sigma"] = rng.choice(["0.37", "-1.13", "2.45"])
             kw["sigmai"] = rng.choice(["0.8", "1.9", "0.3"])
+        out.append(desc(**kw))
+    return out
+
+
+def degenerate(rng, count, types=("d",), nmax=24):
+    """C13 domain: zero, identity, nilpotent, rank-deficient, permutation, orthogonal, skew, exact key ties, norms 2^-26..2^26,
+    extreme (nev, ncv), maxit from 0, every rule, nonzero start vectors."""
+    out = []
+    for i in range(count):
+        herm = rng.random() < 0.45
+        ty = rng.choice(types)
+        n = rng.randint(4, nmax)
+        lgs = rng.choice([0, 0, 0, -26, 26, -10, 13])
+        if herm:
+            cls = rng.choice(["sym", "sym", "herm", "symsh"])
+            f = rng.choice([dict(fam="zero"), dict(fam="ident"), dict(fam="presc", spec="lowrank", rank=rng.randint(1, 3)),
+                            dict(fam="presc", spec="rep", mult=rng.choice([2, 3, n])), dict(fam="diag", spec="rep", mult=2),
+                            dict(fam="blockdiag", blk=rng.choice([1, 2, 3])), dict(fam="rand"), dict(fam="bipart", blk=max(1, n // 2)),
+                            dict(fam="grid", w=3), dict(fam="diag", spec="lin")])
+            if cls == "herm":
+                f = rng.choice([dict(fam="zero"), dict(fam="rand"), dict(fam="blockdiag", blk=2), dict(fam="presc", spec="rep", mult=2),
+                                dict(fam="presc", spec="lowrank", rank=2)])
+            if cls == "symsh" and f["fam"] in ("zero", "ident", "bipart", "grid"):
+                cls = "sym"
+            nev, ncv = pick_dims(rng, n, extreme=rng.random() < 0.6)
+            sel, sort = rng.choice(HERM_SEL), rng.choice(HERM_SORT)
+        else:
+            cls = rng.choice(["gen", "gen", "genrs", "gencs"])
+            f = rng.choice([dict(fam="zero"), dict(fam="ident"), dict(fam="nilp"), dict(fam="lowrank", rank=rng.randint(1, 3)),
+                            dict(fam="perm"), dict(fam="orth"), dict(fam="skew"), dict(fam="cyc"), dict(fam="fewdist", nd=rng.choice([1, 2, 3])),
+                            dict(fam="blockdiag", blk=rng.choice([1, 2, 3])), dict(fam="rand"), dict(fam="tri")])
+            if cls != "gen" and f["fam"] in ("zero", "nilp", "lowrank", "ident", "fewdist"):
+                cls = "gen"   # shifts: the shifted matrix must be nonsingular and the shift not an eigenvalue
+            nev, ncv = pick_dims(rng, n, gen=True, extreme=rng.random() < 0.6)
+            sel, sort = rng.choice(GEN_RULES), rng.choice(GEN_RULES)
+        mx = rng.choice([0, 1, 2, 3, 7, 30, 80])
+        a0 = "%d:%d:%s:%d" % (sel, mx, tol_for(rng, ty), sort)
+        hist = rng.choice(["N,I,C0", "N,V1,C0", "N,V2,C0", "N,I,C0,C0"])
+        kw = dict(cls=cls, ty=ty, n=n, nev=nev, ncv=ncv, seed=rng.randint(1, 10 ** 6), hist=hist, args0=a0, lgs=lgs,
+                  sv1=rng.choice(["rnd", "ones", "e1"]), sv2=rng.choice(["rnd2", "blk"]), meas=0, mconv=0, ref=0)
+        kw.update(f)
+        if cls == "symsh":
+            kw["sigma"] = rng.choice(["0.37", "-1.63", "2.5"])
+        if cls == "genrs":
+            kw["sigma"] = rng.choice(["0.37", "-1.63", "2.45"])
+        if cls == "gencs":
+            kw["sigma"] = rng.choice(["0.37", "-1.13"])
+            kw["sigmai"] = rng.choice(["0.8", "1.9"])
         out.append(desc(**kw))
     return out
